@@ -241,7 +241,7 @@ type downloadOpts struct {
 // downloadFn returns an operation that downloads bundle id of repo into dst.
 func (d *DM) downloadFn(stores context2.Stores, repo, id string, dst afero.Fs, o downloadOpts) (*core.Bundle, func() (interface{}, error)) {
 	opts := []core.BundleOption{core.Repo(repo), core.ContextStores(stores), core.BundleID(id), core.Logger(nopLog)}
-	if !o.metaOnly {
+	if !o.metaOnly || dst != nil {
 		opts = append(opts, core.ConsumableStore(localStore(dst)))
 	}
 	if o.concDown > 0 {
